@@ -268,7 +268,13 @@ func oddUs(msCount, salt int) int { return msCount*1000 + 137 + 100*(salt%8) }
 func genCfg(rt *rapid.T, allowTCP bool) Cfg {
 	rms := rapid.SampledFrom([]int{50, 100, 250, 500, 500, 1000, 2000, 73}).Draw(rt, "resend_ms")
 	var tms int
-	switch rapid.IntRange(0, 3).Draw(rt, "timeout_kind") {
+	switch rapid.IntRange(0, 4).Draw(rt, "timeout_kind") {
+	case 4:
+		// a response timeout below the resend interval: the Send gives up before its first repetition would be due
+		tms = rapid.SampledFrom([]int{rms - 1, rms / 2, rms / 10, 7}).Draw(rt, "timeout_below_resend")
+		if tms < 1 {
+			tms = 1
+		}
 	case 0:
 		tms = 20 * rms
 	case 1:
